@@ -70,6 +70,36 @@ static std::vector<T> numerators(T d, Rng& r) {
         v.push_back(T(U(0) - (U(1) << k)));
     }
     for (int i = 0; i < (g_tier ? 60 : 12); ++i) v.push_back(random_value<T>(r));
+    // Carry chains of a limb-wise multiply-high: division by an invariant is a multiply-high of n by a magic
+    // multiplier m ~ 2^(W+l)/d; when that is built from half-width partial products, a dropped carry only shows for
+    // numerators whose middle partial sum  hi(m)*lo(n) + hi(n)*lo(m)  lands just below a power of 2^W.  Such n are
+    // constructed here for the multipliers of the usual round-up and round-down schemes (if the library uses another
+    // scheme these are merely more numerators).
+    if (sizeof(T) >= 4) {
+        typedef unsigned __int128 U2;
+        const int Wb = int(sizeof(T) * 8), H = Wb / 2;
+        const U mag = (std::is_signed<T>::value && d < 0) ? U(U(0) - U(d)) : U(d);
+        if (mag > 1) {
+            int l = 0;
+            while ((U2(1) << l) < mag) ++l;
+            const U2 full = (U2(1) << (Wb + l)) / mag;
+            const U ms[3] = {U(full), U(full + 1), U(((U2(1) << (Wb + l - 1)) / mag) + 1)};
+            const U hmask = (U(1) << H) - 1;
+            for (U m : ms) {
+                const U A = m >> H, B = m & hmask;
+                if (A == 0) continue;
+                for (int t = 0; t < (g_tier ? 24 : 8); ++t) {
+                    const U h = U(r.next()) & hmask;
+                    const U target = U(U(0) - U(h * B)) - U(t & 1 ? 0 : (r.next() & hmask));   // middle sum wraps to just below 0
+                    const U lo = (target / A) & hmask;
+                    U n = U(h << H) | lo;
+                    if (std::is_signed<T>::value) n &= U(~U(0)) >> 1;
+                    v.push_back(T(n));
+                    v.push_back(T(n + 1));
+                }
+            }
+        }
+    }
     return v;
 }
 
